@@ -86,3 +86,17 @@ Theorem C09_translatable_json_is_detected_as_json :
     json_reader inp = (d :: docs, JDone) ->
     snd (detect sched cutoff toml_parses (msgpack_slice_trial utf8) json_slice_trial ty (start (HSlice inp))) = Ok (Some Json).
 Proof. exact translatable_json_detected. Qed.
+
+(* The same clause for MessagePack: the detection trial (an IgnoredAny decode
+   behind a collection marker) accepts whatever the transcoding decode accepts
+   (theories/MsgpackTrialProofs.v), so a MessagePack stream of at least one
+   document that translates to the end and opens with an array or a map is
+   detected as MessagePack, whatever the later trials would say. *)
+From XtModel Require Import MsgpackTrialProofs.
+
+Theorem C09_translatable_msgpack_is_detected_as_msgpack :
+  forall (sched : nat -> nat) (cutoff : nat) (toml_parses utf8 : bytes -> bool) (tj ty : trial)
+         (inp : bytes) (d : list ev) (docs : list (list ev)) (m : N) (tl : bytes),
+    transcode_reader utf8 inp = (d :: docs, MDone) -> inp = m :: tl -> is_collection_marker m = true ->
+    snd (detect sched cutoff toml_parses (msgpack_slice_trial utf8) tj ty (start (HSlice inp))) = Ok (Some Msgpack).
+Proof. exact translatable_msgpack_detected. Qed.
